@@ -12,8 +12,8 @@ model's heap-use-after-free, `Fault.oob`).
 |-----------------------|--------------------------------------------------------------------------|
 | `baseCtorDefault`     | `intrusive/base_impl.hpp`  `base<T>::base()`                             |
 | `baseCtorList`        | `intrusive/base_impl.hpp`  `base<T>::base(list_type&)`                   |
-| `baseCtorMove`        | `intrusive/base_impl.hpp`  `base<T>::base(base&&)`                       |
-| `baseAssignMove`      | `intrusive/base_impl.hpp`  `base<T>::operator=(base&&)`                  |
+| `baseCtorMove`        | `intrusive/base_impl.hpp`  `base<T>::base(base&&)` (after commit f84f067)  |
+| `baseAssignMove`      | `intrusive/base_impl.hpp`  `base<T>::operator=(base&&)` (after f84f067)    |
 | `detach`, `attach`   | the statement groups shared by the move operations, the destructor and `unlink` |
 | `baseDtor`            | `intrusive/base_impl.hpp`  `base<T>::~base()`                            |
 | `baseUnlink`          | `intrusive/base_impl.hpp`  `base<T>::unlink()`                           |
@@ -94,22 +94,34 @@ def attach (σ : Store) (self other : Node) : M Store := do
   let σ ← wrPrev σ other other    -- _other.prev_ = &_other;
   wrNext σ other other            -- _other.next_ = &_other;
 
-/-- `base(base &&_other) : prev_{_other.prev_}, next_{_other.next_} { …attach… }` -/
+/-- `base(base &&_other) : prev_{_other.prev_}, next_{_other.next_}`
+`{ if (next_ == &_other) { prev_ = this; next_ = this; return; } …attach… }`  (after commit f84f067) -/
 def baseCtorMove (σ : Store) (self other : Node) : M Store := do
   let p ← rdPrev σ other
   let n ← rdNext σ other
   let σ := σ.alloc self p n
-  attach σ self other
+  let n ← rdNext σ self           -- if (next_ == &_other)
+  if n = other then do
+    let σ ← wrPrev σ self self    -- prev_ = this;
+    wrNext σ self self            -- next_ = this;
+  else attach σ self other
 
-/-- `base::operator=(base &&_other)`: self test, detach, `prev_ = _other.prev_; next_ = _other.next_;`, attach -/
+/-- `base::operator=(base &&_other)`: self test, detach,
+`if (_other.next_ == &_other) { prev_ = this; next_ = this; return *this; }`,
+`prev_ = _other.prev_; next_ = _other.next_;`, attach  (after commit f84f067) -/
 def baseAssignMove (σ : Store) (self other : Node) : M Store :=
   if other = self then .ok σ else do
     let σ ← detach σ self
-    let op ← rdPrev σ other       -- prev_ = _other.prev_;
-    let σ ← wrPrev σ self op
-    let on ← rdNext σ other       -- next_ = _other.next_;
-    let σ ← wrNext σ self on
-    attach σ self other
+    let on ← rdNext σ other       -- if (_other.next_ == &_other)
+    if on = other then do
+      let σ ← wrPrev σ self self  -- prev_ = this;
+      wrNext σ self self          -- next_ = this;
+    else do
+      let op ← rdPrev σ other     -- prev_ = _other.prev_;
+      let σ ← wrPrev σ self op
+      let on ← rdNext σ other     -- next_ = _other.next_;
+      let σ ← wrNext σ self on
+      attach σ self other
 
 /-- `~base() { …detach… }` followed by the release of the storage -/
 def baseDtor (σ : Store) (self : Node) : M Store := do
